@@ -7,7 +7,7 @@ from . import common, genops
 from .common import viol
 
 ID = "C11"
-RUNS = {"quick": 160, "thorough": 1500}
+RUNS = {"quick": 160, "thorough": 700}
 REAL = common.REAL
 SIMULATED = common.SIMULATED
 ASSUMPTIONS = [
@@ -38,12 +38,12 @@ def fixed_specs(tier, ctx):
     tall = {"seed": 0, "width": 1, "length": 220 if tier == "quick" else 400, "max_reward": 6, "rb": 0.5, "lb": 0.5,
             "tb": 0.5, "lt": 0.3, "force_down": True}
     # > 8192 states per game: file of a few MB, loadability and structure only
-    huge = {"seed": 4, "width": 30 if tier == "quick" else 40, "length": 30 if tier == "quick" else 40, "max_reward": 6,
+    huge = {"seed": 4, "width": 52 if tier == "quick" else 64, "length": 50 if tier == "quick" else 64, "max_reward": 6,
             "rb": 0.1, "lb": 0.2, "tb": 0.3, "lt": 0.3, "force_down": True}
     return [{"cfg": {"klass": "plain"}, "ops": [{"op": "gen_cli", "params": div, "solve": True}]},
             {"cfg": {"klass": "plain"}, "ops": [{"op": "gen_cli", "params": tall, "solve": True}]},
             {"cfg": {"klass": "plain"}, "ops": [{"op": "gen_cli", "params": huge, "solve": False},
-                                                {"op": "gen_cli", "params": dict(huge, seed=5), "solve": False,
+                                                {"op": "gen_cli", "params": dict(huge, seed=5, width=30, length=30), "solve": False,
                                                  "same_process": True}]}]
 
 
@@ -59,7 +59,7 @@ def _gen_marathon(rng):
         p = pools.gen_params(rng, "tiny")
         p.update(width=rng.randint(1, 2), length=rng.randint(1, 2), seed=rng.randint(0, 5))
         opl.append({"op": "gen_cli", "params": p, "same_process": True, "solve": False, "entropy": rng.randint(0, 2 ** 32)})
-    return {"cfg": {"klass": "marathon"}, "ops": opl}
+    return {"cfg": {"klass": "marathon", "fd_spare": 48}, "ops": opl}
 
 
 def gen(rng, tier, ctx):
